@@ -708,6 +708,25 @@ class BaseSection(base.Sectionable):
             if mine is not None:
                 mine.merge_check(obj, strict)
 
+    def _merge_name_check(self, source_section):
+        """
+        Recursively checks that no subsection of source has the name of a subsection
+        of self but a different type. Such a subsection can neither be merged nor added
+        as new child; raise a ValueError before anything has been merged.
+
+        :param source_section: an odML Section.
+        """
+        for obj in source_section:
+            if not isinstance(obj, BaseSection):
+                continue
+
+            mine = self.contains(obj)
+            if mine is not None:
+                mine._merge_name_check(obj)
+            elif obj.name in self.sections:
+                raise ValueError("odml.Section.merge: subsection '%s' exists with "
+                                 "different types in src and dest!" % obj.name)
+
     def merge(self, section=None, strict=True):
         """
         Merges this section with another *section*.
@@ -734,6 +753,7 @@ class BaseSection(base.Sectionable):
         # its children can be merged with self and its children since
         # there is no rollback in case of a downstream merge error.
         self.merge_check(section, strict)
+        self._merge_name_check(section)
 
         if self.definition is None and section.definition is not None:
             self.definition = section.definition
